@@ -105,3 +105,15 @@ theorem bwdLin_spec (es : List (Edge K)) (dist : K) :
 end
 
 end Lyon.Measure
+
+namespace Lyon.Path
+variable {π A : Type}
+
+theorem nestState_append (s : Bool) (a b : List (Call π A)) :
+    nestState s (a ++ b) = (nestState s a).bind (fun s' => nestState s' b) := by
+  induction a generalizing s with
+  | nil => simp [nestState]
+  | cons c r ih =>
+    cases s <;> cases c <;> simp [nestState, ih]
+
+end Lyon.Path
